@@ -99,7 +99,7 @@ func supervise(prop, replayDir string, seed int64) int {
 			b, _ := os.ReadFile(f)
 			_ = os.WriteFile(one, b, 0o644)
 			_ = os.Remove(f)
-			c2, to2 := runChild(append([]string{"-child", "-replay", one, "-quiet"}, passThrough(os.Args[1:])...), 20*time.Second)
+			c2, to2 := runChild(append([]string{"-child", "-replay", one, "-quiet"}, passThrough(os.Args[1:])...), 40*time.Second)
 			if to2 || (c2 != 0 && c2 != 1) {
 				culprit = true
 				skip = append(skip, fmt.Sprint(idx))
@@ -111,7 +111,7 @@ func supervise(prop, replayDir string, seed int64) int {
 					_ = json.Unmarshal(b, &c)
 					what := "the process was ended by the Go runtime: " + string(lockFatalRe.Find(lastChildStderr.b))
 					if to2 {
-						what = "no termination within 20 s (deadlock or wedge)"
+						what = "no termination within 40 s (deadlock or wedge)"
 					}
 					rep := map[string]any{"property": "C15", "kind": "failing-input", "case": c,
 						"finding": finding{Kind: "panic", Prop: "C15", Clause: "process", Detail: what}, "seed": seed}
@@ -127,7 +127,7 @@ func supervise(prop, replayDir string, seed int64) int {
 					_ = json.Unmarshal(b, &c)
 					what := fmt.Sprintf("process died with exit code %d", c2)
 					if to2 {
-						what = "no termination within 20 s (wedge)"
+						what = "no termination within 40 s (wedge)"
 					}
 					rep := map[string]any{"property": "C01", "kind": "failing-input", "case": c,
 						"finding": finding{Kind: "panic", Prop: "C01", Clause: "process", Detail: what}, "seed": seed}
